@@ -270,3 +270,44 @@ fn num_views() {
     }
 }
 
+
+// ---------- C14 on numbers, at the level of the specification proved in Verus unit `key` ----------
+// Unit key proves that the number branch of scalar_convert_to_comparable appends
+// be64_bytes(key_bits(to_bits(as_f64(n)))) with key_bits as below (textually the Verus spec fn).
+fn key_bits(x: u64) -> u64 {
+    if (x >> 63) == 1 { !x } else { x ^ 0x8000_0000_0000_0000 }
+}
+
+fn image(n: &Number) -> u64 {
+    key_bits(n.as_f64().unwrap().to_bits())
+}
+
+fn exactly_representable(n: &Number) -> bool {
+    match n {
+        Number::Int64(v) => *v >= -(1i64 << 53) && *v <= (1i64 << 53),
+        Number::UInt64(v) => *v <= (1u64 << 53),
+        // documents hold NaN only in its canonical form (the NaN tag has no payload) ; -0.0 is excluded here:
+        // it is Equal to 0 for compare but has a different key (part of known finding F13)
+        Number::Float64(v) => (!v.is_nan() || v.to_bits() == f64::NAN.to_bits()) && v.to_bits() != 0x8000_0000_0000_0000,
+    }
+}
+
+/// key order == compare order for all floats except -0.0 (NaN canonical) and all integers with |v| <= 2^53
+/// (big-endian bytes of u64 compare lexicographically like the u64 themselves)
+#[kani::proof]
+#[kani::solver(cvc5)]
+fn keynum_image_order_exact_range() {
+    let a = any_number();
+    let b = any_number();
+    kani::assume(exactly_representable(&a) && exactly_representable(&b));
+    assert!(image(&a).cmp(&image(&b)) == a.cmp(&b));
+}
+
+/// the same over ALL numbers (expected to fail on the current tree: finding F13)
+#[kani::proof]
+#[kani::solver(cvc5)]
+fn keynum_image_order_full() {
+    let a = any_number();
+    let b = any_number();
+    assert!(image(&a).cmp(&image(&b)) == a.cmp(&b));
+}
